@@ -359,6 +359,8 @@ def analyse_escape_table(model: Model) -> Dict[str, Any]:
             if not (isinstance(idx, IntV) and idx.lin == seen["j"].lin):
                 probs.append((f"escape:{fixed}:hex-index", "the index returned by _decode_hex_char is not passed on"))
         else:
+            if isinstance(dec, SymChar) and run.ctx.char_fixed.get(dec.id) is not None:
+                dec = Const(run.ctx.char_fixed[dec.id])  # the character itself, known on this path
             table[fixed] = dec.value if isinstance(dec, Const) else describe(dec)
             if not (isinstance(idx, IntV) and idx.lin == index.lin):
                 probs.append((f"escape:{fixed}:index", f"returns index {describe(idx)!r}, expected it unchanged"))
